@@ -5,7 +5,7 @@ Import ListNotations.
 From Osmo Require Import Base.DecModel CL.CLPool CL.CLSwap CL.CLStep CLR.Accum CLR.Rewards CLR.RSwap CLR.RStep C07.LP
   C08.Proj C08.Telescope C08.View C08.Static C08.Ops C08.OpInside C08.SwapTrace C08.Crux C08.Check
   C08.Claim C08.Conseq C08.Frame C08.Never C08.SwapWf C08.Dom C08.StaticOk C08.Final
-  C07.Base C08.Paid C08.PaidOps C08.PaidSwap C08.PaidHist.
+  C07.Base C08.Paid C08.PaidOps C08.PaidSwap C08.PaidHist C08.Modify.
 Open Scope Z_scope.
 
 (* ---- the reward model extends the shared pool model conservatively ---- *)
@@ -255,4 +255,28 @@ Proof.
   split.
   - rewrite E. intros p [H|[H|[]]]; subst p; vm_compute; discriminate.
   - split; [vm_compute; reflexivity|]. rewrite E. split; [reflexivity|]. split; [split|]; vm_compute; try reflexivity; discriminate.
+Qed.
+
+(* MODIFY_PRESERVES_MATURED (spread rewards): a partial withdrawal leaves what the position can claim exactly unchanged, in every
+   reachable state (the accrued amount moves into the record's unclaimed rewards; the snapshot is reset to the growth inside now) *)
+Theorem C08_modify_preserves_matured : forall sp spf ssc isc users t ops owner id liq rs' amts q c c',
+  0 < sp -> 0 <= spf <= 500000000000000000 -> 0 < ssc ->
+  let rs := rrun (rinit sp spf ssc isc users t) ops in
+  r_withdraw rs owner id liq = Some (rs', amts) -> pos_get (s_pos (r_base rs)) id = Some q -> liq <> ps_liq q ->
+  claimable_spread rs id = Some c -> claimable_spread rs' id = Some c' -> c' = c.
+Proof. exact modify_preserves_matured_reachable. Qed.
+Print Assumptions C08_modify_preserves_matured.
+
+Example C08_modify_preserves_matured_nonvacuous :
+  let rs := rrun (rinit 0x64 0x71afd498d0000 0x2cd76fe086b93ce2f768a00b22a00000000000 0x2cd76fe086b93ce2f768a00b22a00000000000
+          [(0xc9f2c9cd04674edea40000000, 0xc9f2c9cd04674edea40000000); (0xc9f2c9cd04674edea40000000, 0xc9f2c9cd04674edea40000000);
+           (0xc9f2c9cd04674edea40000000, 0xc9f2c9cd04674edea40000000)] 0x6553f100)
+       [RBase (OCreate 0x0 0x3b9aca00 0x3b9aca00 0x0 0x0 (-0x186a0) 0x186a0);
+        RBase (OSwapIn 0x2 false 0x1c9c380 0x1); RBase (OSwapIn 0x2 true 0x3938700 0x1)] in
+  exists rs' amts q c, r_withdraw rs 0 1 1000 = Some (rs', amts) /\ pos_get (s_pos (r_base rs)) 1 = Some q /\ 1000 <> ps_liq q /\
+    claimable_spread rs 1 = Some c /\ claimable_spread rs' 1 = Some c /\ 0 < fst c /\ 0 < snd c.
+Proof.
+  intro rs. let v := eval vm_compute in rs in assert (E : rs = v) by (vm_compute; reflexivity). rewrite E.
+  eexists. eexists. eexists. eexists. split; [vm_compute; reflexivity|]. split; [vm_compute; reflexivity|].
+  split; [vm_compute; discriminate|]. split; [vm_compute; reflexivity|]. split; [vm_compute; reflexivity|]. split; vm_compute; reflexivity.
 Qed.
